@@ -135,7 +135,7 @@ def c01(run):
 @plan('C02')
 def c02(run):
     engine_step(run, 'units', ['C02'], need_factors=True)
-    engine_step(run, 'qty', ['C02'])
+    engine_step(run, 'qty', ['C02'], need_factors=True)
     run.assumptions += ['the plain scalar PhQ::Convert is the reference for every other entry point (it is itself validated against the symbol oracle by C01)',
                         'reading of "identity": Convert(x,u,u) is bit-exact for the standard unit and within the rounding of the two legs (2 ulp) otherwise (DESIGN 6)']
 
